@@ -11,7 +11,7 @@ C05 / C10 line-protocol driver for the time model:
   dump                       print one line: events (times relative to start) `| end=<t> pend=<n>`
 
 Tokens: rationals `p/q` or integers; clocks `sys`, `app`, `t<i>`;
-acts `y d`, `hang`, `yinf` (= hang), `log`, `send b`, `spawn r clk`, `tempo i x`, `pause r`, `resume r`, `stop r`,
+acts `y d`, `hang`, `yinf` (= hang), `yv K` (= hang; a non-numeric value), `log`, `send b`, `spawn r clk`, `tempo i x`, `pause r`, `resume r`, `stop r`,
 `wait c`, `sig c`, `seed n`, `draw`, `pull r`, `raise`, `etempo i x`.  Draw events print the SEED of the
 generator object read (`M` = the main thread's) and the index in its stream.
 -/
@@ -53,6 +53,7 @@ def parseAct (ws : List String) : Option Act :=
   match ws with
   | ["y", d] => do some (.yield (← parseRat d))
   | ["hang"] => some .hang
+  | ["yv", _] => some .hang         -- yield True / False / None / a string / an object: never rescheduled
   | ["yinf"] => some .hang        -- `yield float('inf')`: never rescheduled
   | ["log"] => some .log
   | ["send", b] => do some (.send (← b.toNat?))
